@@ -2,9 +2,11 @@
    (examples/space Bomb: "delay", int32, validator owned by the harness) with Property.v:
    sequential operation sequences step by step, sequences that also register and unregister with
    client-chosen user ids (PropertySubs.v) step by step, and concurrent histories through the
-   linearizability checker of Lin.v instantiated at the register specification. *)
+   linearizability checker of Lin.v instantiated at the register specification; concurrent
+   histories on an object with several properties (built by the harness with bus.NewBasicObject)
+   through the same checker instantiated at the family of registers of PropertyMulti.v. *)
 From Coq Require Import NArith List Bool String.
-From QV Require Import Bytes Property PropertySubs Lin.
+From QV Require Import Bytes Property PropertySubs PropertyMulti Lin.
 Import ListNotations.
 Local Open Scope N_scope.
 
@@ -104,17 +106,57 @@ Definition ccase_ok (c : pcfg) (t : ccase) : bool :=
                     perm_bytes (map unhex pl) (accepted_data c (cc_hist t)))
           (cc_events t).
 
+(* ---------- concurrent, an object with several properties ---------- *)
+Record mcase := {
+  mc_props : ptable;                             (* the declared properties: name, uid *)
+  mc_init : list mop;                            (* run before the threads start: subscriptions, first values *)
+  mc_hist : list (orec mop pres);                (* invocation / response stamps from one atomic counter *)
+  mc_events : list (N * nat * N * list string)   (* per subscription (property uid, connection, message id): the payloads received *)
+}.
+
+(* the data of the writes to the property [uid] the history reports as accepted *)
+Definition maccepted_data (c : pcfg) (t : ptable) (uid : N) (h : list (orec mop pres)) : list bytes :=
+  flat_map (fun x => match o_ret x with
+                     | Some (_, RDone) =>
+                         match localize t (o_op x) with
+                         | Some (k, po) =>
+                             if uid_of t k =? uid
+                             then match check c nonneg po with Some v => [cv_data v] | None => [] end
+                             else []
+                         | None => []
+                         end
+                     | _ => []
+                     end) h.
+
+(* the whole recorded history — every property — is linearizable with respect to the family of
+   registers, and each subscription received exactly the accepted writes of ITS property *)
+Definition mcase_ok (c : pcfg) (m : mcase) : bool :=
+  let t := mc_props m in
+  let s0 := fst (mrun t c nonneg (minit t) (mc_init m)) in
+  hist_wf (mc_hist m) &&
+  lin_check (mrstep t c nonneg) pres_eqb s0 (mc_hist m) &&
+  forallb (fun e => let '(uid, cn, mid, pl) := e in
+                    match idx_uid t uid with
+                    | Some k => existsb (fun s => Nat.eqb (fst s) cn && (snd s =? mid)) (p_subs (mreg s0 k))
+                    | None => false
+                    end &&
+                    perm_bytes (map unhex pl) (maccepted_data c t uid (mc_hist m)))
+          (mc_events m).
+
 Fixpoint bad_idx {A} (f : A -> bool) (l : list A) (i : nat) : list nat :=
   match l with
   | [] => []
   | x :: r => if f x then bad_idx f r (S i) else i :: bad_idx f r (S i)
   end.
 
-Definition mismatches (c : pcfg) (ss : list scase) (cs : list ccase) (rs : list rcase) : list nat * list nat * list nat :=
-  (bad_idx (scase_ok c) ss 0, bad_idx (ccase_ok c) cs 0, bad_idx (rcase_ok c) rs 0).
+Definition mismatches (c : pcfg) (ss : list scase) (cs : list ccase) (rs : list rcase) (ms : list mcase)
+  : list nat * list nat * list nat * list nat :=
+  (bad_idx (scase_ok c) ss 0, bad_idx (ccase_ok c) cs 0, bad_idx (rcase_ok c) rs 0, bad_idx (mcase_ok c) ms 0).
 
 Definition mkcfg (b : bool) : pcfg := {| store_untyped := b |}.
 Definition ro (r : sres) (ev : list (nat * N * N * string)) : robs := {| ro_res := r; ro_events := ev |}.
 Definition so (r : sres) (ev : list (nat * N * string)) : sobs := {| so_res := r; so_events := ev |}.
 Definition orc (t : N) (o : pop) (inv : N) (ret : option (N * pres)) : orec pop pres :=
+  {| o_tid := t; o_op := o; o_inv := inv; o_ret := ret |}.
+Definition orm (t : N) (o : mop) (inv : N) (ret : option (N * pres)) : orec mop pres :=
   {| o_tid := t; o_op := o; o_inv := inv; o_ret := ret |}.
